@@ -433,7 +433,7 @@ theorem order_of_good (cfg : Cfg) (ver : Ver V) (ok : VerOk ver) (site site' : S
 /-! ## C. connection with the reference selection -/
 
 theorem specLine_some (ver : Ver V) (raw n : Str) (pin : Option Str) (h : specLine ver raw = some (n, pin)) :
-    parseLineWith SPEC_PATS raw = some (n, pin) ∧ plainName n = true ∧
+    (∃ m, parseLineWith SPEC_PATS raw = some (m, pin) ∧ n = normName m ∧ plainName m = true) ∧
       ∀ v, pin = some v → ∃ a, ver.parse v = some a := by
   unfold specLine at h
   cases hpl : parseLineWith SPEC_PATS raw with
@@ -446,7 +446,7 @@ theorem specLine_some (ver : Ver V) (raw n : Str) (pin : Option Str) (h : specLi
       by_cases hm : plainName m = true
       · simp only [hm, if_true, Option.some.injEq, Prod.mk.injEq] at h
         obtain ⟨rfl, rfl⟩ := h
-        exact ⟨rfl, hm, by simp⟩
+        exact ⟨⟨m, rfl, rfl, hm⟩, by simp⟩
       · simp [hm] at h
     | some v =>
       simp only [hpl] at h
@@ -454,7 +454,7 @@ theorem specLine_some (ver : Ver V) (raw n : Str) (pin : Option Str) (h : specLi
       · simp only [hm, if_true, Option.some.injEq, Prod.mk.injEq] at h
         obtain ⟨rfl, rfl⟩ := h
         simp only [Bool.and_eq_true] at hm
-        refine ⟨rfl, hm.1, ?_⟩
+        refine ⟨⟨m, rfl, rfl, hm.1⟩, ?_⟩
         intro w hw
         cases hw
         cases hv : ver.parse v with
@@ -464,6 +464,15 @@ theorem specLine_some (ver : Ver V) (raw n : Str) (pin : Option Str) (h : specLi
 
 theorem plainName_ne_nil (n : Str) (h : plainName n = true) : n ≠ [] := by
   intro e; subst e; simp [plainName] at h
+
+theorem normName_ne_nil (n : Str) (h : n ≠ []) : normName n ≠ [] := by
+  cases n with
+  | nil => exact absurd rfl h
+  | cons c cs =>
+    unfold normName
+    split
+    · split <;> simp
+    · simp
 
 theorem selected_mergeAll (cfg : Cfg) (ver : Ver V) (ok : VerOk ver) (site : Str → Option Str)
     (ls : List (Nat × Str)) (hspec : ∀ l ∈ ls, parseLine cfg l.2 = specLine ver l.2) (p : Str) :
@@ -480,8 +489,8 @@ theorem selected_mergeAll (cfg : Cfg) (ver : Ver V) (ok : VerOk ver) (site : Str
       q ≠ [] ∧ ∀ v, pin = some v → ∃ a, ver.parse v = some a := by
     intro q pin h
     obtain ⟨l, _, hl⟩ := List.mem_filterMap.1 h
-    have := specLine_some ver l.2 q pin hl
-    exact ⟨plainName_ne_nil q this.2.1, this.2.2⟩
+    obtain ⟨⟨m, _, hq, hm⟩, hv⟩ := specLine_some ver l.2 q pin hl
+    exact ⟨by rw [hq]; exact normName_ne_nil m (plainName_ne_nil m hm), hv⟩
   have hrej : ∀ q pin, (q, pin) ∈ ls.filterMap (fun l => specLine ver l.2) → rejectedByFix cfg ver pin = false := by
     intro q pin h
     cases pin with
